@@ -117,9 +117,10 @@ const (
 	sigWrongHeight
 	sigWrongRound
 	sigMissing
+	sigOverOtherExtension // the validator's genuine signature for the same chain/height/round, but over SignedPrices
 )
 
-var sigNames = []string{"valid", "forged", "by-other-validator", "wrong-chain-id", "wrong-height", "wrong-round", "missing"}
+var sigNames = []string{"valid", "forged", "by-other-validator", "wrong-chain-id", "wrong-height", "wrong-round", "missing", "harvested-over-other-extension"}
 
 // voteSpec describes one entry of the extended commit.
 type voteSpec struct {
@@ -132,6 +133,7 @@ type voteSpec struct {
 	OtherSigner  int
 	ClaimedPower int64
 	NoExtension  bool
+	SignedPrices map[string]*big.Int // sigOverOtherExtension: what the reused signature was really given for
 }
 
 func marshalDelimited(msg proto.Message) []byte {
@@ -152,6 +154,30 @@ func (o *OracleEnv) BuildCommit(height uint64, round int32, specs []voteSpec) []
 			v = o.Host[s.Val]
 		} else {
 			v = *s.Unknown
+		}
+		encodeExt := func(prices map[string]*big.Int, garbage map[string][]byte) []byte {
+			conv := map[uint64][]byte{}
+			for pair, price := range prices {
+				cp, _ := connecttypes.CurrencyPairFromString(pair)
+				enc, err := o.strategy.GetEncodedPrice(l2.Ctx, cp, price)
+				if err != nil {
+					panic(err)
+				}
+				id, err := currencypair.CurrencyPairToHashID(pair)
+				if err != nil {
+					panic(err)
+				}
+				conv[id] = enc
+			}
+			for pair, g := range garbage {
+				id, _ := currencypair.CurrencyPairToHashID(pair)
+				conv[id] = g
+			}
+			bz, err := o.veCodec.Encode(vetypes.OracleVoteExtension{Prices: conv})
+			if err != nil {
+				panic(err)
+			}
+			return bz
 		}
 		var ext []byte
 		if !s.NoExtension {
@@ -193,7 +219,11 @@ func (o *OracleEnv) BuildCommit(height uint64, round int32, specs []voteSpec) []
 		var sig []byte
 		if s.Sig != sigMissing {
 			var err error
-			sig, err = signer.Sign(marshalDelimited(&cmtproto.CanonicalVoteExtension{Extension: ext, Height: h, Round: r, ChainId: chain}))
+			signed := ext
+			if s.Sig == sigOverOtherExtension {
+				signed = encodeExt(s.SignedPrices, nil)
+			}
+			sig, err = signer.Sign(marshalDelimited(&cmtproto.CanonicalVoteExtension{Extension: signed, Height: h, Round: r, ChainId: chain}))
 			if err != nil {
 				panic(err)
 			}
